@@ -339,6 +339,13 @@ def flows_part(ctx, helper, root):
         results = list(ex.map(lambda s: run_cert(s, root, helper), scs))
         for two in ex.map(lambda p: run_pair(p, root, helper), pairs):
             results += two
+    # a flow that did not complete is observed once more, alone (a machine busy with other work makes a run slow;
+    # only what happens again on a quiet repetition is reported)
+    for k, r in enumerate(results):
+        if not r["completed"] and not r.get("pair"):
+            ctx.count("flow:not-completed:observed-again")
+            sc2 = dict(r["sc"], idx=r["sc"]["idx"] + 100000)
+            results[k] = dict(run_cert(sc2, root, helper), sc=r["sc"])
     j1, j2, keep = [], [], []
     for r in results:
         sc = r["sc"]
